@@ -326,7 +326,7 @@ func enumerate(tier string, emit func(string)) {
 	}
 	emit(mkSpec("cond", "", "~[a~;b~]|", "18446744073709551617"))
 	emit(mkSpec("cond", "", "~[a~;b~:;c~]|", "-18446744073709551617"))
-	for _, a := range []string{"nil", "t", "0", `""`, "(1)", "sym"} {
+	for _, a := range []string{"nil", "()", "t", "0", `""`, "(1)", "sym"} {
 		emit(mkSpec("cond", "", "~:[f~;t~]|~A", a, "z"))
 		emit(mkSpec("cond", "", "~:[~;~]|~A", a, "z"))
 		emit(mkSpec("cond", "", "~:[f ~A~;t ~A~]|", a, "z"))
@@ -513,7 +513,7 @@ func enumerate(tier string, emit func(string)) {
 			return "~:[z~;" + c + "~]", append([]string{"t"}, a...), true
 		}},
 		{"@[", func(c string, a []string) (string, []string, bool) {
-			return "~@[" + c + "~]", a, 0 < len(a) && a[0] != "nil"
+			return "~@[" + c + "~]", a, 0 < len(a) && a[0] != "nil" && a[0] != "()"
 		}},
 		{"?", func(c string, a []string) (string, []string, bool) {
 			return "~?", []string{`"` + strings.ReplaceAll(c, `"`, `\"`) + `"`, listOf(a)}, !strings.Contains(c, `"`)
@@ -526,32 +526,39 @@ func enumerate(tier string, emit func(string)) {
 	if !thorough {
 		inner = m
 	}
-	for _, w := range wrappers {
-		for _, it := range inner {
-			if c, a, ok := w.wrap(it.ctrl, it.args); ok {
-				emit(mkSpec("nest", "", "a"+c+"|~A", append(a, "z")...))
-			}
-		}
-	}
-	for _, w := range wrappers {
-		for _, i1 := range inner {
-			for _, i2 := range inner {
-				ic, ia := join([]item{i1, i2})
-				if c, a, ok := w.wrap(ic, ia); ok {
-					emit(mkSpec("nest", "", "a"+c+"|~A", append(a, "z")...))
-				}
-			}
-		}
-	}
-	for _, w1 := range wrappers {
-		for _, w2 := range wrappers {
+	// sep "" puts the inner directives directly before the block end, "-" puts text in between
+	for _, sep := range []string{"-", ""} {
+		for _, w := range wrappers {
 			for _, it := range inner {
-				c2, a2, ok := w2.wrap(it.ctrl, it.args)
-				if !ok {
-					continue
-				}
-				if c, a, ok := w1.wrap(c2, a2); ok {
+				if c, a, ok := w.wrap(it.ctrl+sep, it.args); ok {
 					emit(mkSpec("nest", "", "a"+c+"|~A", append(a, "z")...))
+				}
+			}
+		}
+	}
+	for _, sep := range []string{"-", ""} {
+		for _, w := range wrappers {
+			for _, i1 := range inner {
+				for _, i2 := range inner {
+					ic, ia := join([]item{i1, {sep, nil}, i2, {sep, nil}})
+					if c, a, ok := w.wrap(ic, ia); ok {
+						emit(mkSpec("nest", "", "a"+c+"|~A", append(a, "z")...))
+					}
+				}
+			}
+		}
+	}
+	for _, sep := range []string{"-", ""} {
+		for _, w1 := range wrappers {
+			for _, w2 := range wrappers {
+				for _, it := range inner {
+					c2, a2, ok := w2.wrap(it.ctrl+sep, it.args)
+					if !ok {
+						continue
+					}
+					if c, a, ok := w1.wrap(c2+sep, a2); ok {
+						emit(mkSpec("nest", "", "a"+c+"|~A", append(a, "z")...))
+					}
 				}
 			}
 		}
